@@ -23,7 +23,7 @@ DAY_US = 86_400 * US
 EXCHANGE_NAMES = ["Coinbase", "Coinbase Pro", "Kraken", "BlockFi", "Ledger-X.1"]
 HOLDER_NAMES = ["Bob", "Alice", "Mary Ann"]
 ASSET_NAMES = ["BTC", "ETH", "B1", "XLM", "DOT.x", "ADA_2"]
-OFFSETS_MIN = [0, 0, 0, -12 * 60, -8 * 60, -5 * 60, 60, 5 * 60 + 30, 9 * 60, 14 * 60]
+OFFSETS_MIN = [0, 0, 0, -12 * 60, -8 * 60, -5 * 60, -(3 * 60 + 30), -(9 * 60 + 30), 60, 5 * 60 + 30, 9 * 60, 12 * 60 + 45, 14 * 60]
 
 
 def units_to_str(units: int) -> str:
@@ -66,6 +66,7 @@ class GenCfg:
     first_row: int = 3
     ops: Tuple[str, ...] = ("in", "in", "out", "out", "out", "intra")  # operation mix once something is held
     bulk_prob: float = 0.0  # probability of a "volume" tail: one funding lot + 60..180 small rows of a few types (template/sheet sizing)
+    subsecond_weight: int = 0  # extra weight (out of 12 + n) for "the next instant is less than a second later"
     big_lots: int = 0  # n in 10 acquisitions are 1 .. 3000 whole units (dust-relative-to-lot effects); True counts as 1
     fiat_only_out_fee: bool = False  # now and then a disposal whose fee was paid in fiat: crypto_fee 0, fiat_fee supplied
     zero_received_transfers: bool = True  # now and then a transfer whose whole amount is its fee (received == 0)
@@ -173,8 +174,10 @@ def _draw_instant(draw: Any, cfg: GenCfg, state: _State, first: bool) -> None:
         if cfg.mixed_offsets and not cfg.date_monotone and draw(st.booleans()):
             state.now_off = draw(st.sampled_from(OFFSETS_MIN))
         return
-    kind = draw(st.integers(0, 11))
+    kind = draw(st.integers(0, 11 + cfg.subsecond_weight))
     prev_us, prev_off = state.now_us, state.now_off
+    if kind > 11:
+        kind = 7
     if kind <= 1:
         delta = draw(st.integers(1, 120)) * US
     elif kind <= 3:
